@@ -466,6 +466,27 @@ def entry_ctor(prog: Program) -> RuleResult:
     else:
         res.fail(construct, f"Entry(value, tags) without policies stores `{short(got3)}` as its value: a plain value is mistaken for a merge policy", mod, init)
 
+    # one policy given, the other left to its default: the given one is kept
+    for given, other, form in ((p_merge, p_ret, "merge-policy-only"), (p_ret, p_merge, "retention-policy-only")):
+        def oracle_one(expr: ast.AST, env, given=given, other=other) -> Optional[bool]:
+            if isinstance(expr, ast.Compare) and len(expr.ops) == 1 and isinstance(expr.ops[0], (ast.Is, ast.IsNot, ast.Eq, ast.NotEq)):
+                left, right = expr.left, expr.comparators[0]
+                if isinstance(right, ast.Constant) and right.value is None and isinstance(left, ast.Name) and left.id in (given, other):
+                    return (left.id == other) == isinstance(expr.ops[0], (ast.Is, ast.Eq))
+            if isinstance(expr, ast.Call) and dotted(expr.func) == "isinstance" and len(expr.args) == 2 and isinstance(expr.args[0], ast.Name) and expr.args[0].id in (p_val, p_infos):
+                return False
+            return None
+
+        out1 = run_cases(init.body, oracle_one, where=f"Entry.__init__[{form}]")
+        f1 = {t.attr: v for t, v in out1.stores if isinstance(t, ast.Attribute) and dotted(t.value) == "self"}
+        fld = "_merge_policy" if given == p_merge else "_retention_policy"
+        construct = f"{DP}:Entry.__init__/{form}/{fld}"
+        got1 = f1.get(fld)
+        if isinstance(got1, ast.Name) and got1.id == given:
+            res.ok(construct, f"self.{fld} = {given} also when `{other}` is left out")
+        else:
+            res.fail(construct, f"Entry(value, tags, {given}=...) without `{other}` stores `{short(got1)}` as self.{fld}: the policy that was asked for is dropped", mod, init)
+
     for form, short_form in (("policies-only", True), ("explicit", False)):
         out = run_cases(init.body, make_oracle(short_form), where=f"Entry.__init__[{form}]")
         fields: Dict[str, ast.AST] = {}
@@ -1113,6 +1134,15 @@ def root_order_source(prog: Program) -> RuleResult:
                 return "other", expr
             src = got
         if isinstance(src, ast.Call) and dotted(src.func) == "_make_prec_graph":
+            arg = src.args[0] if src.args else None
+            asrc = arg
+            if isinstance(arg, ast.Name):
+                got = reaching(scope, arg.id, src)
+                asrc = got if got is not None and not isinstance(got, Opaque) else arg
+            if isinstance(asrc, (ast.DictComp, ast.ListComp, ast.SetComp, ast.GeneratorExp)) and any(g.ifs for g in asrc.generators):
+                return "filtered-leaves", asrc
+            if isinstance(asrc, ast.Call) and dotted(asrc.func) in ("dict", "filter"):
+                return "filtered-leaves", asrc
             return "graph", src
         if isinstance(src, (ast.DictComp, ast.ListComp, ast.SetComp, ast.GeneratorExp)) and any(g.ifs for g in src.generators):
             return "filtered", src
@@ -1126,10 +1156,15 @@ def root_order_source(prog: Program) -> RuleResult:
             kind, wit = graph_source(fn, val.args[0], a, [])
             if kind == "graph":
                 res.ok(construct, f"`{short(val)}` over `{short(wit, 50)}`")
+            elif kind == "filtered-leaves":
+                res.fail(construct, f"the precedence graph is built from `{short(wit, 80)}`, a part of the leaf syntenies: the adjacencies of the leaves left out constrain the root order too (a rearranged leaf must make the problem infeasible, not be truncated)", mod, a)
             elif kind == "filtered":
                 res.fail(construct, f"the root orders are the linear extensions of `{short(wit, 80)}`, a filtered precedence graph: families left out of it are missing from (or fixed in) every root order", mod, a)
             else:
                 raise AnalysisError(f"_spfs: the graph given to toposort_all (`{short(wit, 60)}`) is not recognised")
+            continue
+        if isinstance(val, (ast.List, ast.Tuple)) or (isinstance(val, ast.Call) and dotted(val.func) in ("list", "sorted", "tuple")):
+            res.fail(construct, f"without a prescribed root the orderings are also set to `{short(val, 60)}`: an order that is not a linear extension of the precedence graph (when none exists the problem has no solution)", mod, a)
             continue
         helper = resolve_callee(prog, mod, val.func) if isinstance(val, ast.Call) else None
         if helper is None or not isinstance(helper[1], FuncNode):
@@ -1335,9 +1370,11 @@ def loss_walk(prog: Program) -> RuleResult:
     mod = prog.module(LAYOUT)
     fn = prog.func(LAYOUT, "_add_losses")
     params = func_params(fn)
-    if len(params) != 4:
-        raise AnalysisError(f"_add_losses: expected (layout_state, gene, start_species, end_species), found {params}")
-    p_state, p_gene, p_start, p_end = params
+    n_defaults = len(fn.args.defaults)
+    if len(params) < 4 or len(params) - n_defaults > 4:
+        raise AnalysisError(f"_add_losses: expected (layout_state, gene, start_species, end_species[, optional...]), found {params}")
+    p_state, p_gene, p_start, p_end = params[:4]
+    extra_params = params[4:]  # optional extras (a colour handed in by the caller): values the model does not describe
     model = TreeModel(3)
 
     class StateMap:
@@ -1413,6 +1450,7 @@ def loss_walk(prog: Program) -> RuleResult:
             return False
 
         env = {p_state: StateMap(), p_gene: gene, p_start: start, p_end: end}
+        env.update({p: UNKNOWN for p in extra_params})
         walk = LossWalk(model, env, "_add_losses", effect=effect)
         ret = walk.run(fn.body)
         return gene, events, ret
@@ -1824,6 +1862,21 @@ def candidate_guards(prog: Program) -> RuleResult:
                     bad = (sink, test)
                     break
                 kinds.add(kind)
+            if bad:
+                break
+            # a conditional expression that chooses WHICH batch of candidates an update receives is a guard too
+            if isinstance(sink, ast.Call) and isinstance(sink.func, ast.Attribute) and sink.func.attr == "update":
+                for arg in sink.args:
+                    inner = arg.value if isinstance(arg, ast.Starred) else arg
+                    if isinstance(inner, ast.Name):
+                        got = reaching(fn, inner.id, sink)
+                        inner = got if got is not None and not isinstance(got, Opaque) else inner
+                    if isinstance(inner, ast.IfExp):
+                        kind = _guard_kind(fn, inner.test, True)
+                        if kind is None or kind == "infinity":
+                            bad = (sink, inner.test)
+                            break
+                        kinds.add(kind)
             if bad:
                 break
         n += len(sinks)
@@ -2909,8 +2962,24 @@ def eval_no_shortcut(prog: Program) -> RuleResult:
                 if not any(kindish(t) for t, _p in gs):
                     bad = (ret, gs[0][0])
                     break
+            # the walk over the nodes is never cut short: no `break`, and a `continue` only for a kind of node
+            early = None
+            for st in walk_no_nested(fn):
+                if isinstance(st, ast.Break) and any(isinstance(l, (ast.For, ast.While)) for l in loops_around(fn, st)):
+                    early = (st, "ends the walk over the nodes: every node visited later is never priced")
+                elif isinstance(st, ast.Continue):
+                    gs2 = [owner.test for _b, _i, _f, owner in _stmt_chain(fn, st) if isinstance(owner, ast.If)]
+
+                    def kindish2(t: ast.AST) -> bool:
+                        names = {x.id for x in ast.walk(t) if isinstance(x, ast.Name)}
+                        return bool(names & events) or any(isinstance(x, ast.Call) and isinstance(x.func, ast.Attribute) and x.func.attr in ("node_event", "is_leaf") for x in ast.walk(t)) or any(isinstance(x, ast.Attribute) and x.attr == "children" for x in ast.walk(t))
+
+                    if gs2 and not any(kindish2(t) for t in gs2):
+                        early = (st, f"skips a node when `{short(gs2[-1], 60)}`, a condition that is not its event")
             if bad:
                 res.fail(construct, f"`{short(bad[0], 70)}` is returned when `{short(bad[1], 70)}`, a condition that is not the event of the node: the subtree below is not recounted", mod, bad[0])
+            elif early:
+                res.fail(construct, f"`{short(early[0])}` {early[1]}", mod, early[0])
             else:
                 res.ok(construct, "every conditional return is selected by the node's event")
     if n < 3:
@@ -3147,7 +3216,547 @@ def closure_late_binding(prog: Program) -> RuleResult:
     return res
 
 
+# ---------------------------------------------------------------------------
+# KINDS-COMPLETE
+
+
+def kinds_complete(prog: Program) -> RuleResult:
+    res = RuleResult(
+        "KINDS-COMPLETE",
+        "the unordered table holds an entry for BOTH synteny kinds of every (object, species): the loop of "
+        "_compute_uspfs_entry that writes `table[object][species][kind]` ranges over the enumeration "
+        "SyntenyAssignment itself, not over a parameter or a list chosen per object (an object whose parent inherits "
+        "extra families must be able to pass them on even when it misses nothing of its parent's own content)",
+    )
+    modname = "compute.unordered_super_reconciliation"
+    mod = prog.module(modname)
+    fn = prog.func(modname, "_compute_uspfs_entry")
+    n = 0
+    for loop in walk_no_nested(fn):
+        if not isinstance(loop, ast.For) or not isinstance(loop.target, ast.Name):
+            continue
+        kind = loop.target.id
+        writes = [
+            c for c in ast.walk(loop)
+            if isinstance(c, ast.Call) and isinstance(c.func, ast.Attribute) and c.func.attr == "update"
+            and isinstance(c.func.value, ast.Subscript) and dotted(c.func.value.slice) == kind
+            and isinstance(c.func.value.value, ast.Subscript)
+        ]
+        if not writes:
+            continue
+        n += 1
+        construct = f"{modname}:_compute_uspfs_entry/kinds-of-table-writes"
+        it = loop.iter
+        while isinstance(it, ast.Call) and dotted(it.func) in ("list", "tuple", "iter") and len(it.args) == 1:
+            it = it.args[0]
+        if isinstance(it, ast.Name) and it.id == "SyntenyAssignment":
+            res.ok(construct, "both kinds are tabulated for every (object, species)")
+        else:
+            res.fail(construct, f"the kinds tabulated for an (object, species) range over `{short(loop.iter)}`, not over SyntenyAssignment: a kind left out reads as infinitely bad in the parent's recurrence", mod, loop)
+    if n == 0:
+        raise AnalysisError("KINDS-COMPLETE: loop writing table[object][species][kind] not found")
+    return res
+
+
+# ---------------------------------------------------------------------------
+# TREE-AS-GIVEN
+
+NODE_REMOVERS = {"delete", "detach", "prune", "remove_child", "remove_children", "resolve_polytomy", "unroot", "set_outgroup", "collapse", "standardize"}
+
+
+def tree_as_given(prog: Program) -> RuleResult:
+    res = RuleResult(
+        "TREE-AS-GIVEN",
+        "`binarize` enumerates the refinements of the tree it is given: it removes no node (no delete / detach / prune "
+        "/ collapse of 'soft' polytomies, on the tree or on a copy of it) and its tree parameter is only ever rebound "
+        "to a plain copy - a refinement keeps every clade, name and colour of the input",
+    )
+    mod = prog.module(TREES)
+    fn = prog.func(TREES, "binarize")
+    tparams = [a.arg for a in fn.args.args if a.annotation is not None and unparse(a.annotation) in ("Tree", "TreeNode", "PhyloTree")]
+    if not tparams:
+        raise AnalysisError("binarize: tree parameter not found")
+    construct = f"{TREES}:binarize/tree-as-given"
+    rebinds = [
+        st for st in walk_no_nested(fn)
+        if isinstance(st, (ast.Assign, ast.AugAssign, ast.AnnAssign))
+        and any(isinstance(t, ast.Name) and t.id in tparams for t in (st.targets if isinstance(st, ast.Assign) else [st.target]))
+        and not (isinstance(st, ast.Assign) and isinstance(st.value, ast.Call) and isinstance(st.value.func, ast.Attribute) and st.value.func.attr == "copy" and dotted(st.value.func.value) in tparams)
+    ]
+    removers = [c for c in walk_no_nested(fn) if isinstance(c, ast.Call) and isinstance(c.func, ast.Attribute) and c.func.attr in NODE_REMOVERS]
+    if removers:
+        res.fail(construct, f"`{short(removers[0], 70)}` removes nodes: the refinements are no longer refinements of the tree that was given", mod, removers[0])
+    elif rebinds:
+        res.fail(construct, f"`{short(rebinds[0], 70)}` replaces the tree that was given: what follows answers for another tree", mod, rebinds[0])
+    else:
+        res.ok(construct, f"{tparams} used as given, no node removed")
+    return res
+
+
+# ---------------------------------------------------------------------------
+# BRANCH-COMPLETE-ASSIGN
+
+
+def _stores(node: ast.AST) -> Set[str]:
+    out: Set[str] = set()
+    stack = [node]
+    while stack:
+        cur = stack.pop()
+        if isinstance(cur, (ast.FunctionDef, ast.AsyncFunctionDef, ast.Lambda, ast.ClassDef)) and cur is not node:
+            if isinstance(cur, (ast.FunctionDef, ast.AsyncFunctionDef, ast.ClassDef)):
+                out.add(cur.name)
+            continue
+        if isinstance(cur, ast.Name) and isinstance(cur.ctx, ast.Store):
+            out.add(cur.id)
+        elif isinstance(cur, (ast.Import, ast.ImportFrom)):
+            out.update((a.asname or a.name).split(".")[0] for a in cur.names)
+        elif isinstance(cur, ast.ExceptHandler) and cur.name:
+            out.add(cur.name)
+        stack.extend(ast.iter_child_nodes(cur))
+    return out
+
+
+def _definite(stmts: Sequence[ast.stmt]) -> Optional[Set[str]]:
+    """names assigned on every path that falls through the block; None when no path falls through"""
+    got: Set[str] = set()
+    for st in stmts:
+        if isinstance(st, (ast.Return, ast.Raise, ast.Continue, ast.Break)):
+            return None
+        if isinstance(st, ast.If):
+            a, b = _definite(st.body), _definite(st.orelse)
+            if a is None and b is None:
+                return None
+            got |= (a if b is None else b if a is None else a & b)
+        elif isinstance(st, (ast.For, ast.While)):
+            if isinstance(st, ast.While) and isinstance(st.test, ast.Constant) and st.test.value:
+                inner = _definite(st.body)
+                got |= inner or set()
+            # a loop may run zero times: nothing definite (its target included)
+        elif isinstance(st, ast.Try):
+            fin = _definite(st.finalbody) if st.finalbody else set()
+            got |= fin or set()
+        elif isinstance(st, ast.With):
+            for item in st.items:
+                if item.optional_vars is not None:
+                    got |= _stores(item.optional_vars)
+            inner = _definite(st.body)
+            if inner is None:
+                return None
+            got |= inner
+        else:
+            got |= _stores(st)
+    return got
+
+
+def _stores_of(stmts: Sequence[ast.stmt]) -> Set[str]:
+    out: Set[str] = set()
+    for st in stmts:
+        out |= _stores(st)
+    return out
+
+
+def branch_complete_assign(prog: Program) -> RuleResult:
+    res = RuleResult(
+        "BRANCH-COMPLETE-ASSIGN",
+        "a local that is assigned in some branches of an if / elif / else and read after it is assigned in EVERY "
+        "branch that falls through, or before the statement: otherwise the read either fails (UnboundLocalError on the "
+        "first iteration) or silently sees the value left by an earlier iteration of the enclosing loop",
+    )
+    n = 0
+    for mod in sorted(prog.modules.values(), key=lambda m: m.relpath):
+        key = _modkey(mod)
+        bad: List[Tuple[str, str, ast.AST, ast.AST]] = []
+        for qual, fn in prog.defs(mod.name).items():
+            if not isinstance(fn, FuncNode):
+                continue
+            params = {a.arg for a in fn.args.posonlyargs + fn.args.args + fn.args.kwonlyargs}
+            if fn.args.vararg:
+                params.add(fn.args.vararg.arg)
+            if fn.args.kwarg:
+                params.add(fn.args.kwarg.arg)
+
+            def visit(stmts: Sequence[ast.stmt], known: Set[str]) -> None:
+                nonlocal n
+                have = set(known)
+                for idx, st in enumerate(stmts):
+                    if isinstance(st, ast.If):
+                        n += 1
+                        a, b = _definite(st.body), _definite(st.orelse)
+                        # only branches that fall through matter for what follows the statement
+                        some = (_stores_of(st.body) if a is not None else set()) | (_stores_of(st.orelse) if b is not None else set())
+                        allb = some if (a is None and b is None) else (a if b is None else b if a is None else a & b)
+                        partial = some - allb - have
+                        for name in sorted(partial):
+                            # first use after the statement, in this block
+                            for later in stmts[idx + 1:]:
+                                occ = sorted((x for x in ast.walk(later) if isinstance(x, ast.Name) and x.id == name), key=lambda x: (x.lineno, x.col_offset))
+                                if not occ:
+                                    continue
+                                loads = [x for x in occ if isinstance(x.ctx, ast.Load)]
+                                if isinstance(occ[0].ctx, ast.Store):
+                                    # re-assigned first: a read only if the assigned value itself reads the name
+                                    holder = next((a2 for a2 in ast.walk(later) if isinstance(a2, ast.Assign) and any(t is occ[0] for t in a2.targets)), None)
+                                    if holder is None or not any(isinstance(x, ast.Name) and x.id == name and isinstance(x.ctx, ast.Load) for x in ast.walk(holder.value)):
+                                        break
+                                if loads and not (isinstance(later, ast.If) and _guarded_by_same(st, later, name)):
+                                    bad.append((qual, name, st, loads[0]))
+                                    break
+                                if name in (_definite([later]) or set()):
+                                    break
+                        visit(st.body, have)
+                        visit(st.orelse, have)
+                        have |= allb if allb is not None else set()
+                    elif isinstance(st, (ast.For, ast.While)):
+                        inner = set(have)
+                        if isinstance(st, ast.For):
+                            inner |= _stores(st.target)
+                        visit(st.body, inner)
+                        visit(st.orelse, have)
+                    elif isinstance(st, ast.With):
+                        inner = set(have)
+                        for item in st.items:
+                            if item.optional_vars is not None:
+                                inner |= _stores(item.optional_vars)
+                        visit(st.body, inner)
+                        have |= _definite([st]) or set()
+                    elif isinstance(st, ast.Try):
+                        visit(st.body, have)
+                        for h in st.handlers:
+                            visit(h.body, have | ({h.name} if h.name else set()))
+                        visit(st.orelse, have)
+                        visit(st.finalbody, have)
+                        have |= _definite([st]) or set()
+                    else:
+                        have |= _stores(st)
+
+            visit(fn.body, params)
+        if bad:
+            for i, (qual, name, st, use) in enumerate(bad):
+                res.fail(f"{key}:{qual}/branch-complete[{name}]", f"`{name}` is assigned in some branches of `if {short(st.test, 50)}` (line {st.lineno}) only, has no value before it, and is read afterwards (line {use.lineno}): unbound on the first pass, stale on later ones", mod, use)
+        else:
+            res.ok(f"{key}:<module>/branch-complete", "every local read after a conditional is assigned on all of its branches")
+    if n < 100:
+        raise AnalysisError(f"BRANCH-COMPLETE-ASSIGN: only {n} conditionals found in the package")
+    return res
+
+
+def _guarded_by_same(first: ast.If, later: ast.If, name: str) -> bool:
+    """`if c: x = ...` followed by `if c: use(x)` with the same test: the read happens only where x was assigned"""
+    if ast.dump(first.test) != ast.dump(later.test):
+        return False
+    return name in (_definite(first.body) or set()) and not any(isinstance(x, ast.Name) and x.id == name and isinstance(x.ctx, ast.Load) for st in later.orelse for x in ast.walk(st)) and not any(isinstance(x, ast.Name) and x.id == name for x in ast.walk(later.test))
+
+
+# ---------------------------------------------------------------------------
+# TRIPLES-RECURSION
+
+
+def triples_recursion(prog: Program) -> RuleResult:
+    res = RuleResult(
+        "TRIPLES-RECURSION",
+        "in OneTree / AllTrees the triples handed to the recursion for a group are ALL the triples of the current "
+        "call whose three leaves lie in the group (a comprehension over the `triples` parameter itself, filtered by "
+        "that test only) - a triple that did not change the partition at this level still constrains a deeper one; "
+        "and the wrapper of AllTrees answers `[]` only on the verdict of OneTree",
+    )
+    mod = prog.module(TREES)
+    defs = prog.defs(TREES)
+    n = 0
+    for qual in ("tree_from_triples", "all_trees_from_triples._all_trees_from_triples"):
+        fn = defs.get(qual)
+        if not isinstance(fn, FuncNode):
+            raise AnalysisError(f"TRIPLES-RECURSION: {qual} not found")
+        params = func_params(fn)
+        if len(params) < 2:
+            raise AnalysisError(f"{qual}: expected (leaves, triples)")
+        p_triples = params[1]
+        construct = f"{TREES}:{qual}/triples-of-a-group"
+        rebound = [st for st in walk_no_nested(fn) if isinstance(st, (ast.Assign, ast.AugAssign)) and any(dotted(t) == p_triples for t in (st.targets if isinstance(st, ast.Assign) else [st.target]))]
+        comps = []
+        for comp in ast.walk(fn):
+            if isinstance(comp, ast.ListComp) and len(comp.generators) == 1:
+                gen = comp.generators[0]
+                test_all = [t for t in gen.ifs if isinstance(t, ast.Call) and dotted(t.func) == "all"]
+                if test_all and isinstance(comp.elt, ast.Name) and dotted(gen.target) == comp.elt.id:
+                    comps.append((comp, gen))
+        if not comps:
+            raise AnalysisError(f"{qual}: the comprehension selecting the triples of a group was not found")
+        n += 1
+        bad = None
+        for comp, gen in comps:
+            if dotted(gen.iter) != p_triples:
+                bad = (comp, f"selects from `{short(gen.iter)}`, not from the triples of this call (`{p_triples}`)")
+            elif len(gen.ifs) != 1:
+                bad = (comp, f"applies a second filter (`{short(gen.ifs[-1], 50)}`) besides 'all three leaves are in the group'")
+        if rebound:
+            res.fail(construct, f"`{short(rebound[0], 60)}` replaces the triples of this call before they are handed down", mod, rebound[0])
+        elif bad:
+            res.fail(construct, f"the triples of a group: `{short(bad[0], 80)}` {bad[1]}: a triple that is redundant at this level still has to be displayed inside its group", mod, bad[0])
+        else:
+            res.ok(construct, f"all triples of `{p_triples}` inside the group, no other filter")
+    # wrapper verdict
+    wrap = prog.func(TREES, "all_trees_from_triples")
+    construct = f"{TREES}:all_trees_from_triples/empty-answer"
+    empties = [r for r in walk_no_nested(wrap) if isinstance(r, ast.Return) and isinstance(r.value, (ast.List, ast.Tuple)) and not r.value.elts]
+    stray = []
+    for r in empties:
+        gs = guards(wrap, r)
+        verdict = [
+            (t, pol) for t, pol in gs
+            if isinstance(t, ast.Compare) and len(t.ops) == 1 and isinstance(t.ops[0], (ast.Is, ast.Eq)) and pol
+            and isinstance(t.left, ast.Call) and dotted(t.left.func) == "tree_from_triples"
+            and isinstance(t.comparators[0], ast.Constant) and t.comparators[0].value is None
+        ] + [
+            (t, pol) for t, pol in gs
+            if not pol and isinstance(t, ast.Call) and dotted(t.func) == "tree_from_triples"
+        ]
+        if len(verdict) != 1:
+            stray.append((r, gs))
+        elif any(pol and (t, pol) not in verdict for t, pol in gs):
+            stray.append((r, gs))  # the verdict of OneTree is listened to only under a further condition
+    if stray:
+        r, gs = stray[0]
+        cond = " and ".join(("" if pol else "not ") + short(t, 60) for t, pol in gs) or "always"
+        res.fail(construct, f"AllTrees answers `[]` when {cond}: only OneTree decides that no tree displays the triples (a counting argument on cherries forgets that they may overlap)", mod, r)
+    else:
+        res.ok(construct, f"{len(empties)} empty answer(s), on the verdict of tree_from_triples")
+    if n < 2:
+        raise AnalysisError("TRIPLES-RECURSION: recursive functions not found")
+    return res
+
+
+# ---------------------------------------------------------------------------
+# JSON-INFINITE-COSTS
+
+
+def json_infinite_costs(prog: Program) -> RuleResult:
+    res = RuleResult(
+        "JSON-INFINITE-COSTS",
+        "the tool writes every solution it found: no `json.dump` / `json.dumps` of the command-line code forbids "
+        "non-finite numbers (`allow_nan=False`) - an infinite unit cost is the documented way to forbid an event and "
+        "is part of the cost vector embedded in every written solution",
+    )
+    n = 0
+    for modname in ("cli.reconcile", "cli.draw", "cli.main"):
+        if f"superrec2.{modname}" not in prog.modules:
+            continue
+        mod = prog.module(modname)
+        for qual, fn in prog.defs(modname).items():
+            if not isinstance(fn, FuncNode):
+                continue
+            for c in walk_no_nested(fn):
+                if isinstance(c, ast.Call) and dotted(c.func) in ("json.dump", "json.dumps"):
+                    n += 1
+                    construct = f"{modname}:{qual}/json-accepts-infinity"
+                    strict = [k for k in c.keywords if k.arg == "allow_nan" and not (isinstance(k.value, ast.Constant) and k.value.value is True)]
+                    if strict:
+                        res.fail(construct, f"`{short(c, 70)}` refuses non-finite numbers: with an infinite --cost-* option the encoder raises after the minimum cost was printed and leaves a truncated document", mod, c)
+                    else:
+                        res.ok(construct, "infinite costs are written (as Infinity) and read back")
+    if n < 1:
+        raise AnalysisError("JSON-INFINITE-COSTS: no json.dump call found in the command-line code")
+    return res
+
+
+# ---------------------------------------------------------------------------
+# LABEL-LINEBREAKS
+
+WRAPPERS = {"format_synteny", "balanced_wrap"}
+
+
+def _is_linebreak_conversion(call: ast.AST) -> bool:
+    """`<x>.replace("\n", "\\\\")`"""
+    return (
+        isinstance(call, ast.Call) and isinstance(call.func, ast.Attribute) and call.func.attr == "replace" and len(call.args) == 2
+        and isinstance(call.args[0], ast.Constant) and call.args[0].value == "\n"
+        and isinstance(call.args[1], ast.Constant) and call.args[1].value == "\\\\"
+    )
+
+
+def label_linebreaks(prog: Program) -> RuleResult:
+    res = RuleResult(
+        "LABEL-LINEBREAKS",
+        "a wrapped label reaches TeX with TeX line breaks: the result of every wrapping call (`format_synteny`, "
+        "`balanced_wrap`) of the rendering code is converted with `.replace('\\n', '\\\\\\\\')` where it is produced, or - "
+        "when the conversion is done by the drawing code instead - every use of a branch's name in the drawing "
+        "templates goes through the converting helper (a raw newline inside `\\node{...}` is a space for TeX: the "
+        "label is not wrapped at the requested width)",
+    )
+    converters: Set[str] = set()
+    for modname in ("render.layout", "render.tikz"):
+        for qual, fn in prog.defs(modname).items():
+            if isinstance(fn, FuncNode):
+                rets = [r for r in walk_no_nested(fn) if isinstance(r, ast.Return) and r.value is not None]
+                if len(rets) == 1 and _is_linebreak_conversion(rets[0].value) and isinstance(rets[0].value.func.value, ast.Name) and rets[0].value.func.value.id in func_params(fn):
+                    converters.add(qual.split(".")[-1])
+    n = 0
+    raw_sources = []
+    for modname in ("render.layout", "render.tikz"):
+        mod = prog.module(modname)
+        for qual, fn in prog.defs(modname).items():
+            if not isinstance(fn, FuncNode):
+                continue
+            for call in walk_no_nested(fn):
+                if not (isinstance(call, ast.Call) and dotted(call.func) in WRAPPERS):
+                    continue
+                n += 1
+                par = mod.parent(call)
+                converted = False
+                # receiver of .replace(...), possibly through an enclosing conditional expression / parentheses
+                if isinstance(par, ast.Attribute) and par.attr == "replace" and _is_linebreak_conversion(mod.parent(par)):
+                    converted = True
+                if isinstance(par, ast.Call) and dotted(par.func) in converters:
+                    converted = True
+                if isinstance(par, ast.Assign) and len(par.targets) == 1 and isinstance(par.targets[0], ast.Name):
+                    name = par.targets[0].id
+                    uses = [x for x in walk_no_nested(fn) if isinstance(x, ast.Name) and x.id == name and isinstance(x.ctx, ast.Load)]
+                    if uses and all(
+                        (isinstance(mod.parent(u), ast.Attribute) and mod.parent(u).attr == "replace" and _is_linebreak_conversion(mod.parent(mod.parent(u))))
+                        or (isinstance(mod.parent(u), ast.Call) and dotted(mod.parent(u).func) in converters)
+                        for u in uses
+                    ):
+                        converted = True
+                construct = f"{modname}:{qual}/wrapped[{dotted(call.func)}]"
+                if converted:
+                    res.ok(construct, "line breaks converted where the text is wrapped")
+                else:
+                    raw_sources.append((modname, qual, call, construct))
+    if n < 2:
+        raise AnalysisError(f"LABEL-LINEBREAKS: only {n} wrapping calls found in the rendering code")
+    if raw_sources:
+        # the drawing code must then convert every use of a branch name
+        tmod = prog.module("render.tikz")
+        draw = prog.func("render.tikz", "_tikz_draw_branches")
+        loops = [l for l in walk_no_nested(draw) if isinstance(l, ast.For) and isinstance(l.target, ast.Tuple) and len(l.target.elts) == 2 and "branches" in unparse(l.iter)]
+        if not loops:
+            raise AnalysisError("_tikz_draw_branches: loop over the branches not found")
+        bvar = dotted(loops[0].target.elts[1])
+        unconverted = []
+        for x in ast.walk(loops[0]):
+            if isinstance(x, ast.Attribute) and x.attr == "name" and dotted(x.value) == bvar and isinstance(x.ctx, ast.Load):
+                par = tmod.parent(x)
+                ok = (isinstance(par, ast.Call) and dotted(par.func) in converters) or (isinstance(par, ast.Attribute) and par.attr == "replace" and _is_linebreak_conversion(tmod.parent(par)))
+                if not ok:
+                    unconverted.append(x)
+        modname, qual, call, construct = raw_sources[0]
+        if unconverted or not converters:
+            where = f"`{short(tmod.parent(unconverted[0]), 60)}` (line {unconverted[0].lineno})" if unconverted else "the drawing code"
+            res.fail(construct, f"`{short(call, 60)}` keeps its newlines, and {where} puts the branch name into a template without converting them: that label is not broken at the requested width", prog.module(modname), call)
+        else:
+            res.ok(construct, f"newlines kept here; every use of `{bvar}.name` in the drawing code goes through {sorted(converters)}")
+    return res
+
+
+# ---------------------------------------------------------------------------
+# LOSS-COLOR-OWN
+
+
+class _NeedAnswer(Exception):
+    def __init__(self, key: str, test: ast.AST):
+        self.key = key
+        self.test = test
+
+
+def loss_color_own(prog: Program) -> RuleResult:
+    from ..cases import run_cases
+
+    res = RuleResult(
+        "LOSS-COLOR-OWN",
+        "the virtual loss nodes of a lineage take the colour of THAT lineage: `_add_losses` reads the colour from its "
+        "own gene argument, or - when the colour is handed in by the caller - every call passes the colour of the very "
+        "gene it passes, on every path through the handler (also after the children were swapped to match the order of "
+        "the species' children)",
+    )
+    mod = prog.module("render.layout")
+    addl = prog.func("render.layout", "_add_losses")
+    aparams = func_params(addl)
+    if len(aparams) < 4:
+        raise AnalysisError("_add_losses: expected (layout_state, gene, start_species, end_species)")
+    gene_p = aparams[1]
+    own = [
+        x for x in walk_no_nested(addl)
+        if (isinstance(x, ast.Attribute) and x.attr == "color" and dotted(x.value) == gene_p)
+        or (isinstance(x, ast.Call) and dotted(x.func) == "getattr" and len(x.args) >= 2 and dotted(x.args[0]) == gene_p and isinstance(x.args[1], ast.Constant) and x.args[1].value == "color")
+    ]
+    color_params = [p for p in aparams[4:] if "color" in p or "colour" in p]
+    construct = "render.layout:_add_losses/colour-of-own-lineage"
+    if own and not color_params:
+        res.ok(construct, f"read from `{gene_p}` inside _add_losses")
+        return res
+    if not color_params:
+        raise AnalysisError("_add_losses: the colour of the loss nodes comes neither from the gene argument nor from a parameter")
+    cpos = aparams.index(color_params[0])
+    fn = prog.func("render.layout", "_compute_branches")
+    # the handler of internal nodes: the `else` of `<gene>.is_leaf()` in the gene loop
+    arm = None
+    for st in ast.walk(fn):
+        if isinstance(st, ast.If) and isinstance(st.test, ast.Call) and isinstance(st.test.func, ast.Attribute) and st.test.func.attr == "is_leaf" and st.orelse:
+            arm = st.orelse
+    if arm is None:
+        raise AnalysisError("_compute_branches: handler of internal nodes not found")
+    n_paths = 0
+    bad = None
+
+    def explore(answers: Dict[str, bool], depth: int = 0) -> None:
+        nonlocal n_paths, bad
+        if depth > 12 or bad is not None:
+            return
+
+        def oracle(expr: ast.AST, env) -> Optional[bool]:
+            if isinstance(expr, (ast.BoolOp,)) or (isinstance(expr, ast.UnaryOp) and isinstance(expr.op, ast.Not)):
+                return None
+            key = ast.dump(expr)
+            if key not in answers:
+                raise _NeedAnswer(key, expr)
+            return answers[key]
+
+        try:
+            out = run_cases(arm, oracle, where="_compute_branches[internal node]", on_loop=lambda st, o: None)
+        except _NeedAnswer as need:
+            for val in (True, False):
+                explore({**answers, need.key: val}, depth + 1)
+            return
+        n_paths += 1
+        seen = set()
+        pool = list(out.env.values()) + [v for _t, v in out.stores] + [e for _k, e in out.events if isinstance(e, ast.AST)]
+        for root in pool:
+            for c in ast.walk(root):
+                if isinstance(c, ast.Call) and dotted(c.func) == "_add_losses" and ast.dump(c) not in seen:
+                    seen.add(ast.dump(c))
+                    gene_arg = c.args[1] if len(c.args) > 1 else None
+                    col_arg = c.args[cpos] if len(c.args) > cpos else next((k.value for k in c.keywords if k.arg == color_params[0]), None)
+                    if gene_arg is None or col_arg is None:
+                        bad = bad or (c, "no colour is passed")
+                        continue
+                    # strip nested _add_losses around the gene (a chain continues the same lineage)
+                    src = None
+                    if isinstance(col_arg, ast.Call) and dotted(col_arg.func) == "getattr" and len(col_arg.args) >= 2:
+                        src = col_arg.args[0]
+                    elif isinstance(col_arg, ast.Attribute) and col_arg.attr == "color":
+                        src = col_arg.value
+                    if src is None:
+                        raise AnalysisError(f"_compute_branches: the colour `{short(col_arg, 50)}` handed to _add_losses is not the colour attribute of a node")
+                    if ast.dump(src) != ast.dump(gene_arg):
+                        bad = bad or (c, f"passes the lineage `{short(gene_arg, 40)}` with the colour of `{short(src, 40)}`")
+
+    explore({})
+    if n_paths == 0:
+        raise AnalysisError("_compute_branches: no path through the handler of internal nodes was followed")
+    if bad:
+        res.fail(construct, f"on one path of the handler, `_add_losses` {bad[1]}: the loss nodes of one child are drawn in the colour of its sibling", mod, fn)
+    else:
+        res.ok(construct, f"{n_paths} paths: every call passes the colour of the gene it passes")
+    return res
+
+
 RULES = {
+    "LOSS-COLOR-OWN": loss_color_own,
+    "LABEL-LINEBREAKS": label_linebreaks,
+    "JSON-INFINITE-COSTS": json_infinite_costs,
+    "TRIPLES-RECURSION": triples_recursion,
+    "BRANCH-COMPLETE-ASSIGN": branch_complete_assign,
+    "TREE-AS-GIVEN": tree_as_given,
+    "KINDS-COMPLETE": kinds_complete,
     "CLOSURE-LATE-BINDING": closure_late_binding,
     "REFINEMENT-PAIRING": refinement_pairing,
     "ROOT-CONTENT": root_content,
